@@ -25,6 +25,8 @@ TNext ==
        \* Close raced with arriving connections: with the peers still connected and silent, nothing of the closed
        \* socket is left running in the library (no handshake worker, no parked upgrade)
        [] e.k = "rrace" -> e.leaked = 0 /\ UNCHANGED vars
+       \* the socket was dialing a server that accepts and stays silent: closing it leaves nothing of it running
+       [] e.k = "rdialsilent" -> e.leaked = 0 /\ UNCHANGED vars
        [] e.k = "rhsdrop" -> e.closed = TRUE /\ UNCHANGED vars
        [] e.k = "rcensus" -> e.n = 0 /\ UNCHANGED vars
        [] OTHER -> FALSE
